@@ -14,8 +14,9 @@ import (
 )
 
 var (
-	errNoCookies   = errors.New("unexpected NTS-KE meta data: no cookies")
-	errUnknownAlgo = errors.New("unexpected NTS-KE meta data: unknown algorithm")
+	errNoCookies       = errors.New("unexpected NTS-KE meta data: no cookies")
+	errNoServerAddress = errors.New("unexpected NTS-KE meta data: no address for server name")
+	errUnknownAlgo     = errors.New("unexpected NTS-KE meta data: unknown algorithm")
 )
 
 // Fetcher is a client side NTS Cookie fetcher. It can be used for both TCP/TLS and SCION QUIC connections.
@@ -91,6 +92,18 @@ func (f *Fetcher) exchangeKeys(ctx context.Context) error {
 	}
 	if f.data.Algo != AES_SIV_CMAC_256 {
 		return errUnknownAlgo
+	}
+	// The server may name the NTP server by host name; the clients address it
+	// by IP address.
+	if net.ParseIP(f.data.Server) == nil {
+		addrs, err := net.DefaultResolver.LookupIPAddr(ctx, f.data.Server)
+		if err != nil {
+			return err
+		}
+		if len(addrs) == 0 {
+			return errNoServerAddress
+		}
+		f.data.Server = addrs[0].IP.String()
 	}
 
 	logData(ctx, f.Log, f.data)
